@@ -10,6 +10,7 @@ import SpVerif.Ops.CfdpHeader
 import SpVerif.Ops.ByteField
 import SpVerif.Ops.Tlv
 import SpVerif.Ops.Parser
+import SpVerif.Ops.Uslp
 /-!
 # Line-protocol driver: one JSON object per input line (`{"op": …, …}`), one JSON result per output line.
 `{"ok": …}` / `{"err": "<category>"}` are model results; `{"bad": "<msg>"}` is a protocol error.
@@ -29,6 +30,7 @@ def allOps : List (String × Handler) := []
   ++ Ops.ByteField.ops
   ++ Ops.Tlv.ops
   ++ Ops.Parser.ops
+  ++ Ops.Uslp.ops
 
 def table : Std.HashMap String Handler := Std.HashMap.ofList allOps
 
